@@ -94,6 +94,28 @@ CHECKS = {
         "system OpenSSL 3.0.20 (SSLv3 compiled out); memory-BIO handshakes",
         "DESIGN.md §2 C20",
     ),
+    "C02": (
+        "exploration",
+        "Hypothesis-generated filesystem trees (symlink topologies, hostile names) x path spellings; sentinel-based "
+        "containment oracle + completeness oracle (RFC 3986 encoded and literal spellings)",
+        "For generated document roots and request spellings, any 2x body must be exactly an inside regular file or a "
+        "listing of an inside directory, no response may contain the sentinel of an outside file, failures reveal no "
+        "sentinel at all, and every servable inside file must be served under its percent-encoded and (when legal) "
+        "literal spelling.",
+        "sandbox under /dev/shm; runs as root (no permission denials); undecodable names excluded from completeness",
+        "DESIGN.md §2 C02",
+    ),
+    "C05": (
+        "exploration",
+        "Hypothesis-generated rule lists (objects and TOML) x path spellings x real client certificates against the "
+        "start_server assembly over in-memory TLS; reference first-covering-rule policy on the delivered resource",
+        "The sentinel in the delivered body identifies the resource actually served; the reference policy (first rule "
+        "covering its canonical location, require_cert, allow-list incl. empty) must admit the presented certificate, "
+        "else it is a violation; refused canonical requests must get exactly 60/61. TOML rules must be enforced as "
+        "written.",
+        "capsule without symlinks; non-boundary string prefixes are grey; PyOpenSSL backend selected by the rules",
+        "DESIGN.md §2 C05",
+    ),
 }
 
 PENDING_REASON = "check not built yet in this round (work in progress; technique applies, see DESIGN.md)"
